@@ -231,6 +231,9 @@ def cache_view(cache) -> dict | None:
     if type(cache).__name__ == "HDF5Cache":
         view["file"] = str(cache.hdf_file.hdf_file_path)
         view["node"] = cache.hdf_node_path
+    if len(cache):
+        last = cache.last_entry
+        view["last_entry"] = {"in": dict(last.inputs), "out": dict(last.outputs)}
     entries = []
     # (get_all_entries() of an empty HDF5Cache raises an AssertionError: outside this property)
     for entry in cache.get_all_entries() if len(cache) else ():
@@ -629,6 +632,9 @@ def _discipline_body(p, ctx, rec, tmp):
     if type(orig).__name__.endswith("SG") and "Sobieski" in type(orig).__name__ and ctx.known("sobieski_sg_unpicklable"):
         return
     if getattr(orig, "matrix_free_jacobian", False) and _has_operator_block(orig.jac) and ctx.known("linear_discipline_matrix_free_jac_unpicklable"):
+        return
+
+    if cache_kind == "HDF5" and orig.cache._last_accessed_index.value != orig.cache._max_index.value and ctx.known("hdf5_last_entry_not_restored"):
         return
 
     # the twin is only needed where the original may not write new cache entries any more
